@@ -9,13 +9,12 @@
                                      full (every source).
    * C04_eval_fuel_mono, C04_eval_good, C04_quiet_no_tokens, C04_parse_spans
                                      full, generic in the grammar.
-   * C04_wf_grammar, C04_rep_progress, C04_peg_terminates
-                                     full for the PEG interpreter on the generated grammar:
-                                     fuel hb_K + (hb_K+1)*|src| suffices.  NOT proved: that the
-                                     fuel compile2 actually passes (peg_fuel src = 200 + 24*|src|)
-                                     suffices, i.e. `compile2 src opts <> CFuel` — the proved
-                                     coefficient is hb_K+1 = 44 > 24; nor that main_loop's own fuel
-                                     16 + 4*|tokens| suffices.
+   * C04_wf_grammar, C04_rep_progress, C04_peg_terminates, C04_compile_terminates
+                                     full: the PEG interpreter on the generated grammar needs fuel
+                                     hb_K + (hb_K+1)*|src| at most, peg_fuel src dominates it, and
+                                     the fold's own fuel 16 + 4*|tokens| suffices for main_loop, the
+                                     tag-body parsers and the else-chain reversal: compile2 never
+                                     returns CFuel (with the outcome type this is "never hangs").
    * C04_tag_parsers_no_panic_partial, C04_no_panic_wf_tokens_partial
                                      the compile2 fold never panics on token lists in wf_tokens.
                                      MISSING for the full `forall src outside the F1 class`:
@@ -24,7 +23,8 @@
                                      checked by the differential run, not proved. *)
 From Coq Require Import List NArith Lia.
 From HB Require Import Peg.Peg Peg.Grammar Tpl.Compile Spec.WfTokens
-  Proofs.PegFacts Proofs.PegTermination Proofs.CompileNoPanic Proofs.CompileStages Proofs.CompilePositions.
+  Proofs.PegFacts Proofs.PegTermination Proofs.CompileNoPanic Proofs.CompileStages Proofs.CompilePositions
+  Proofs.CompileTermination.
 Import ListNotations.
 Open Scope N_scope.
 
@@ -112,6 +112,18 @@ Theorem C04_peg_terminates : exists a b : nat, forall start src fuel,
   (a + b * length src <= fuel)%nat -> hb_parse fuel start src <> ParseOutOfFuel.
 Proof. exact hb_parse_terminates. Qed.
 Print Assumptions C04_peg_terminates.
+
+(* compile2 never runs out of fuel: for every source and all options the outcome
+   is a template, a TemplateError or (finding F1) a panic — never CFuel *)
+Theorem C04_compile_terminates : forall src opts, compile2 src opts <> CFuel.
+Proof. exact compile2_terminates. Qed.
+Print Assumptions C04_compile_terminates.
+
+(* the PEG stage alone, with the fuel compile2 passes, for every start rule *)
+Theorem C04_peg_stage_terminates : forall src start,
+  hb_parse (peg_fuel src) start src <> ParseOutOfFuel.
+Proof. exact peg_stage_terminates. Qed.
+Print Assumptions C04_peg_stage_terminates.
 
 (* ---------- no panic in the compile2 fold (partial: over wf_tokens) ---------- *)
 (* the tag-body parser consumes exactly the tag's tokens and never panics *)
